@@ -86,6 +86,27 @@ def _has_raise(node: ast.If) -> bool:
     return any(isinstance(n, ast.Raise) for s in node.body + node.orelse for n in ast.walk(s))
 
 
+def _status_test_covers_all_failures(ctx: Ctx, f: Func, node: ast.If) -> bool:
+    """The raising branch is taken for every status other than 0 (negative:
+    killed by a signal; positive: error exit; None: still running)."""
+    from ..pattern import norm as _norm
+
+    t = _norm(ctx.X.at(f, node.test))
+    raise_in_body = any(isinstance(n, ast.Raise) for s in node.body for n in ast.walk(s))
+    raise_in_else = any(isinstance(n, ast.Raise) for s in node.orelse for n in ast.walk(s))
+
+    def is_status(x):
+        return (x[0] == "attr" and x[2] == "returncode") or (x[0] == "call" and x[1][0] == "attr" and x[1][2] in ("poll", "wait"))
+
+    if t[0] == "cmp" and t[1] in ("!=", "==") and ((is_status(t[2]) and t[3] == ("const", 0)) or (is_status(t[3]) and t[2] == ("const", 0))):
+        return raise_in_body if t[1] == "!=" else raise_in_else
+    if is_status(t):  # `if process.returncode:`
+        return raise_in_body
+    if t[0] == "unary" and t[1] == "not" and is_status(t[2]):
+        return raise_in_else
+    return False
+
+
 @rule(P)
 def c20_1(ctx: Ctx) -> RuleResult:
     res = RuleResult("C20.1", "DOM", "the child's exit status is inspected (failure raises) before every normal return after the spawn")
@@ -95,9 +116,13 @@ def c20_1(ctx: Ctx) -> RuleResult:
         df = dataflow_of(ctx.repo, f)
         pf = PathFinder(cfg, df)
         checks = set()
+        partial = []
         for n in nodes_in(f, ast.If):
             if _mentions_status(ctx, f, n.test, pvar) and _has_raise(n):
-                checks.update(cfg.node_containing(n.test))
+                if _status_test_covers_all_failures(ctx, f, n):
+                    checks.update(cfg.node_containing(n.test))
+                else:
+                    partial.append(n)
         for pn in cfg.node_containing(call):
             starts = [m for m, lab in pn.succ if lab != "exc"]
             ok, wit = True, []
@@ -105,9 +130,12 @@ def c20_1(ctx: Ctx) -> RuleResult:
                 path = pf.find_path(s0, lambda m: m is cfg.exit, blocked=lambda m: m in checks, goal_at_start=True)
                 if path is not None:
                     ok, wit = False, describe_path(f, path)
-            res.add(f, call, "every path from the spawn to a normal return passes a test of the child's exit status with a raising failure branch", ok,
-                    "" if ok else "the function can return normally (normal-completion code) without ever looking at the child's exit status: a crashed or killed optimizer process is reported as success",
-                    wit)
+            why = ""
+            if not ok:
+                why = ("the function can return normally (normal-completion code) without ever looking at the child's exit status: a crashed or killed optimizer process is reported as success"
+                       if not partial else
+                       f"the status test `{ast.unparse(partial[0].test)}` does not treat every non-zero status as a failure (a process killed by a signal has a negative status): abnormal death is reported as success")
+            res.add(f, call, "every path from the spawn to a normal return passes a test `exit status != 0 -> raise` of the child", ok, why, wit)
     return res
 
 
@@ -352,5 +380,49 @@ def c20_5(ctx: Ctx) -> RuleResult:
             res.add(f, w, "the loop condition or the first statement of the body tests that the peer process is alive", ok,
                     "" if ok else "a waiting loop without a liveness test can hang forever when the peer dies",
                     construct=f"{f.name}: while {ast.unparse(w.test)[:50]}")
+    res.floor = 3
+    return res
+
+
+# --------------------------------------------------------------------- C20.6
+@rule(P)
+def c20_6(ctx: Ctx) -> RuleResult:
+    res = RuleResult("C20.6", "TABLE", "the external optimizer reports the wrapped method's own capabilities (allow_nan, is_parallel): the parent takes the same decisions as an in-process run")
+    X = ctx.X
+    base = ctx.repo.cls("ropt.plugins.optimizer.base.Optimizer")
+    props = [n for n, m in base.methods.items() if m.is_property]
+    m_ = ctx.repo.module(MOD)
+    ext = None
+    for c in m_.classes.values():
+        if ctx.repo.is_subclass(c, base.qualname) and "start" in c.methods:
+            ext = c
+    if ext is None:
+        raise AnalysisError("external optimizer class not found")
+    for pn in props:
+        pm = ext.methods.get(pn)
+        if pm is None:
+            res.add(None, ext.node, f"`{pn}` is implemented", False, construct=f"external: {pn}", where=m_.relpath, fname=ext.qualname)
+            continue
+        rt = X.return_term(pm)
+        ok = False
+        why = f"`{pn}` returns `{show(rt, 60)}`"
+        if rt[0] == "attr" and rt[1][0] == "param":
+            fld = rt[2]
+            vals = ctx.cg.field_values(ext, fld)
+            ok = bool(vals) and all(v[0] == "attr" and v[2] == pn and v[1][0] == "call" for v in vals)
+            if not ok:
+                why = f"`{pn}` is served from `self.{fld}`, which is assigned `{[show(v, 50) for v in vals]}` instead of the wrapped optimizer's `.{pn}`"
+        res.add(pm, pm.node, f"`{pn}` is the `{pn}` of the optimizer created for the wrapped method", ok, "" if ok else why, construct=f"external: {pn} delegation")
+    # the wrapped method is created from the part of the method string after the plug-in name, on both sides
+    makers = []
+    for f in ctx.repo.funcs_in(MOD):
+        for c in calls_in(f):
+            if isinstance(c.func, ast.Attribute) and c.func.attr == "get_plugin":
+                makers.append((f, c))
+    for f, c in makers:
+        t = X.at(f, c)
+        arg = t[2][1] if len(t[2]) > 1 else None
+        ok = arg is not None and arg[0] == "sub" and arg[2] == ("const", 1) and "split" in show(arg) and t[2][0] == ("const", "optimizer")
+        res.add(f, c, "parent and child look up the wrapped method as the part after 'external/'", ok, "" if ok else f"lookup argument `{show(arg, 60) if arg else '?'}`", construct=f"{f.name}: wrapped method lookup")
     res.floor = 3
     return res
